@@ -75,9 +75,31 @@ func hsmsWorker(w *iso.Worker) {
 		steps.items, steps.exceeded, steps.seen = items, exceeded, true
 	}
 	ast.VerifCountListWalks = true // hook H4: this worker is single-goroutine
+	// what the decoder keeps reachable between calls is measured over the whole batch (the batch is loaded already)
+	runtime.GC()
+	runtime.GC()
+	runtime.ReadMemStats(&m0)
+	heapBefore := m0.HeapAlloc
+	maxIn := 0
+	defer func() {
+		runtime.GC()
+		runtime.GC()
+		runtime.ReadMemStats(&m1)
+		grown := int64(m1.HeapAlloc) - int64(heapBefore)
+		if stale != nil {
+			grown -= int64(len(stale))
+		}
+		w.Max("retained_heap_growth_MiB_over_the_batch", float64(grown)/(1<<20))
+		if limit := int64(32<<20) + 2*int64(maxIn); grown > limit && len(w.Jobs) > 0 {
+			w.Report(iso.Finding{Index: len(w.Jobs) - 1, Sig: "C07/memory-retained-across-calls", What: fmt.Sprintf("after %d calls and two collections the live heap is %d MiB larger than before the first call (limit 32 MiB + 2 x the longest input, %d bytes): what earlier calls allocated stays reachable", len(w.Jobs), grown>>20, maxIn), Family: w.Jobs[len(w.Jobs)-1].Family})
+		}
+	}()
 	for i, j := range w.Jobs {
 		w.Begin(i)
 		in := j.Input
+		if len(in) > maxIn {
+			maxIn = len(in)
+		}
 		ast.VerifListWalks = 0
 		ast.VerifListWalkBudget = listWalkBudget(len(in))
 		if i%4 == 1 && len(in) <= 4096 {
